@@ -16,6 +16,7 @@ package lispsim
 
 import (
 	"context"
+	"os"
 	"strconv"
 	"strings"
 	"time"
@@ -48,6 +49,7 @@ const c07Setup = `(do
   (def lpd (fn [x] (do 1 x (lpd x))))
   (def lpl (fn [x] (let [y x] (lpl y))))
   (def lpi (fn [x] (if x (lpi x) (lpi x))))
+  (def lp-def (fn [n] (do (def scratch n) (let [m (+ n 1)] (lp-def m)))))
   nil)`
 
 // c07Prelude runs before the main program under a context of its own that never ends: a pending future
@@ -62,9 +64,12 @@ type c07Gen struct {
 
 var c07Leaves = []string{"(lp 0)", "(lp-nt 0)", "(mm)", "(lp-cond 0)", "(lp-and 0)", "(lp-thread 0)", "(lp-sleep 0)", "(sleep 10000000)", "(lp-swap 0)",
 	"(apply lp (list 0))", `@(future (gate! "never"))`,
-	"(lp0)", "(lpx 1)", "(pa 1)", "(lpd 1)", "(lpl 1)", "(lpi true)", "@shared-pending"}
+	"(lp0)", "(lpx 1)", "(pa 1)", "(lpd 1)", "(lpl 1)", "(lpi true)", "@shared-pending",
+	// a future that keeps writing bindings while the caller resolves symbols
+	"(do (def bg (future (lp-def 0))) (lp-nt 0))", "(let [bg (future (lp-def 0))] (lp-cond 0))"}
 var c07LeafNames = []string{"tail", "nontail", "macro", "cond", "and-or", "thread", "sleep-loop", "sleep", "swap-loop", "apply", "deref-ignoring-body",
-	"tail-noargs", "tail-symbol-arg", "mutual-symbol-arg", "tail-do-atoms", "tail-let-symbol", "tail-if-symbol", "deref-shared-pending"}
+	"tail-noargs", "tail-symbol-arg", "mutual-symbol-arg", "tail-do-atoms", "tail-let-symbol", "tail-if-symbol", "deref-shared-pending",
+	"background-env-writer", "background-env-writer-let"}
 
 // endless returns an expression that never terminates on its own.
 func (g *c07Gen) endless(depth int, allowTry bool) string {
@@ -257,7 +262,17 @@ func (c07) Run(tp *Tape, opt RunOpt) *RunOut {
 	var src string
 	handlerProbe := false
 	finallyProbe := ""
-	switch tp.Weighted(LaneWork, []int{6, 2, 1, 1}) {
+	burst := false
+	topW := []int{120, 40, 20, 20, 2}
+	if os.Getenv("LISPSIM_C07_BURST") != "" {
+		topW = []int{0, 0, 0, 0, 1} // development aid: only the burst shape
+	}
+	switch tp.Weighted(LaneWork, topW) {
+	case 4:
+		// very many futures at once, each starting a future of its own after a short sleep
+		burst = true
+		g.kinds = append(g.kinds, "future-burst")
+		src = "(do (def burst (map (fn [i] (future (do (sleep 3) @(future (lp 0))))) (range 0 " + strconv.Itoa(270+tp.Draw(LaneWork, 60)) + "))) (lp 0))"
 	case 2:
 		// a timeout raised inside a try body: handler and finally both still get to run, once
 		handlerProbe = true
@@ -307,6 +322,10 @@ func (c07) Run(tp *Tape, opt RunOpt) *RunOut {
 	// instants are drawn log-uniformly in steps: 2^0..2^14 steps, times a fraction
 	steps := int64(1) << uint(tp.Draw(LaneFault, 15))
 	steps += int64(tp.Draw(LaneFault, int(steps)))
+	if burst && steps < 24000 {
+		// all the futures must have been started before the context ends, or there is no burst
+		steps = 24000 + steps%8000
+	}
 	if handlerProbe || finallyProbe != "" {
 		w.mode = "deadline"
 		// the handler needs about six evaluation steps; it gets a fifth of the deadline and a step may
